@@ -216,6 +216,27 @@ def run(chk):
                'mode %s groups by %s' % (modes[-1], norm(st.value, 80)), fi=a.fi, node=st)
   if n_modes < 2:
     raise AnalysisError('AsSql: GROUP BY emission per mode not recognised')
+  # the key list is exactly the select keys that are distinct vars: a
+  # comprehension over the select keys whose only filter is membership in
+  # self.distinct_vars (dropping e.g. constant columns removes the GROUP BY of
+  # a rule whose keys are all constants: one row per body solution instead of one)
+  keylists = []
+  for x in walk_local(a.fi.node):
+    if isinstance(x, ast.ListComp) and 'self.distinct_vars' in norm(x) and 'self.select' in norm(x):
+      keylists.append(x)
+  if not keylists:
+    raise AnalysisError('AsSql: list of GROUP BY keys not recognised')
+  for kl in keylists:
+    ifs = [i for g in kl.generators for i in g.ifs]
+    exact = len(kl.generators) == 1 and len(ifs) == 1 and isinstance(ifs[0], ast.Compare) and \
+        isinstance(ifs[0].ops[0], ast.In) and dotted(ifs[0].comparators[0]) == 'self.distinct_vars' \
+        and dotted(kl.elt) == dotted(kl.generators[0].target) == dotted(ifs[0].left)
+    chk.ob('C02-R3', exact, None,
+           'GROUP BY keys are exactly the select keys that are distinct vars',
+           'the key list is `%s`: some non-aggregated columns of a distinct rule '
+           'are left out of GROUP BY (or the clause disappears when all are left '
+           'out), so the rule returns one row per body solution' % norm(kl, 90),
+           fi=a.fi, node=kl)
 
   chk.rule('C02-R4', 'aggregation operators: + and ++ map to built-ins that '
            'exist; every constructor of an aggregation node builds the key set '
